@@ -42,7 +42,7 @@ func encodingEnabledFor(cfg *ChainCfg, r *ChainReq) bool {
 }
 
 func runC07(x *Ctx) {
-	k := chainKnobs{maxFilters: 2, encoding: true, addCE: true, warm: true, panics: 200, errors: true, plain: true, nested: true, maxPayload: 4096, filterWrites: true, early: true, wfaults: 80}
+	k := chainKnobs{cancels: 40, maxFilters: 2, encoding: true, addCE: true, warm: true, panics: 200, errors: true, plain: true, nested: true, maxPayload: 4096, filterWrites: true, early: true, wfaults: 80}
 	maxClients := 3
 	if x.Thorough() {
 		k.maxPayload = 200000
